@@ -663,6 +663,15 @@ def _missing_spec(rng):
 def generate(ctx):
     rng = ctx.rng
     for _ in range(ctx.n(900, 16000)):
+        if rng.random() < 0.06:
+            # two operands with block layouts of their own: wide runs of one numeric dtype, so that the blocks of the bounds
+            # straddle the blocks of the clipped frame in every possible way
+            spec = F.random_spec(rng, max_rows=3, max_cols=7, min_rows=1, min_cols=4, dtypes=['float64', 'int64', 'float64'],
+                                 row_kinds=['auto', 'str'], col_kinds=['str', 'auto'], missing_ok=False, homog_p=0.6)
+            ctx.tally('workload', 'two_layouts')
+            ops = [('clip_frame', _d_clip_frame(spec, rng)) for _ in range(4)]
+            yield {'spec': spec, 'ops': [o for o in ops if o[1] is not None], 'layout_seed': rng.randrange(1 << 30)}
+            continue
         if rng.random() < 0.15:
             spec = _missing_spec(rng)
             names = [n for n in _MISSING_OPS if n in CATALOGUE]
